@@ -2,10 +2,14 @@
 (* Line-protocol driver for the extracted EBLIF reader/writer model (engine "eblif").
    stdin :  "doc" starts a document, every following "L tok tok ..." is one line of tokens
             (a token = comma-separated code points, "-" = empty token), "end" runs the case.
-   stdout:  three lines per case
+   stdout:  four lines per case
               E <json dump of elab d | {"error": kind}>
               W <emit of that netlist: lines separated by ';', tokens by ' '>   (or "W !" on error)
               R <json dump of elab (emit n)>                                   (or "R !")
+              P <supported d> <roundtrippable n> <equiv_b n (elab (emit n))> <supported (emit n)>
+                                                                                (1 / 0; "-" when there is no n)
+            the last line carries the predicates of BlifSpec the theorems of Props/C18.v are stated with:
+            the harness classifies every document by them
    Detached cables (m_orphans) are printed only when one of their wires still holds a pin: the
    implementation side can reach them through those pins only.
    Trusted glue: parsing of the protocol and printing only. *)
@@ -99,15 +103,21 @@ let res_j = function Ok n -> bnv_j n | Error e -> "{\"error\":\"" ^ err_s e ^ "\
 let doc_s (d : str list list) =
   String.concat ";" (List.map (fun l -> String.concat " " (List.map tok_of_str l)) d)
 
+let b01 = function true -> "1" | false -> "0"
+
 let run_case (d : str list list) =
   let r = elab d in
   print_string "E "; print_endline (res_j r);
+  let sup = b01 (supported d) in
   (match r with
    | Ok n ->
      let w = emit n in
      print_string "W "; print_endline (doc_s w);
-     print_string "R "; print_endline (res_j (elab w))
-   | Error _ -> print_endline "W !"; print_endline "R !");
+     let r2 = elab w in
+     print_string "R "; print_endline (res_j r2);
+     let chk = (match r2 with Ok n2 -> b01 (equiv_b n n2) | Error _ -> "0") in
+     print_endline ("P " ^ sup ^ " " ^ b01 (roundtrippable n) ^ " " ^ chk ^ " " ^ b01 (supported w))
+   | Error _ -> print_endline "W !"; print_endline "R !"; print_endline ("P " ^ sup ^ " - - -"));
   flush stdout
 
 let () =
